@@ -56,6 +56,8 @@ def fake_sigfig(x, *args, **kw):
         nd = None
     ni = SHAPE[0]
     ip = nondet_str("ipart", ni)
+    if ni > 1:
+        assume(ip[0] != "0")            # a rounded decimal has no leading zeros
     if nd is None:
         nf = SHAPE[1]
     else:
